@@ -400,6 +400,7 @@ def install(ex):
     I['_ZSt20__throw_out_of_rangePKc'] = _throw_std('_ZTISt12out_of_range')
     install_gsl_error(ex)
     install_complex(ex)
+    install_rng(ex)
     install_string(ex)
 
 
@@ -554,3 +555,32 @@ def install_complex(ex):
         den = d.add(d.mul(c, c), d.mul(d_, d_))
         return [d.div(d.add(d.mul(a, c), d.mul(b, d_)), den), d.div(d.sub(d.mul(b, c), d.mul(a, d_)), den)]
     I['__divdc3'] = divdc3
+
+
+def install_rng(ex):
+    I = ex.intr
+
+    def env_setup(ex_, st, args, ins, name):
+        return ex.global_addr(st, 'gsl_rng_default') if 'gsl_rng_default' in ex.mod.globals else 0x2000
+
+    def alloc(ex_, st, args, ins, name):
+        return st.heap_alloc(16, 'malloc').base
+
+    def free(ex_, st, args, ins, name):
+        o = st.find(args[0]) if args[0] else None
+        if o is not None:
+            o.live = False
+            st.ledger.append(('free', 'malloc', args[0], o.size))
+        return None
+
+    def uniform_int(ex_, st, args, ins, name):
+        # environment: an arbitrary value in [0, n)
+        st.fresh += 1
+        v = T.bvvar('rng!%d' % st.fresh, 64)
+        n = args[1]
+        st.pc.append(T.icmp('ult', v, n, 64))
+        return v
+    I['gsl_rng_env_setup'] = env_setup
+    I['gsl_rng_alloc'] = alloc
+    I['gsl_rng_free'] = free
+    I['gsl_rng_uniform_int'] = uniform_int
